@@ -20,6 +20,10 @@ use self::ObserverState::*;
 #[derive(Debug, Copy, Clone, Hash, PartialEq, Eq)]
 pub struct ObserverId(usize);
 impl ObserverId {
+    #[cfg(cormacrelf_incremental_rs_verif)]
+    pub(crate) fn verif_raw(&self) -> usize {
+        self.0
+    }
     fn next() -> Self {
         thread_local! {
             static OBSERVER_ID: Cell<usize> = Cell::new(0);
@@ -56,6 +60,8 @@ pub(crate) trait ErasedObserver: Debug + NotObserver {
     fn remove_from_observed_node(&self);
     fn unsubscribe(&self, token: SubscriptionToken) -> Result<(), ObserverError>;
     fn run_all(&self, input: &Node, node_update: NodeUpdateDelayed, now: StabilisationNum);
+    #[cfg(cormacrelf_incremental_rs_verif)]
+    fn verif_num_handlers(&self) -> i32;
 }
 
 impl<T: Value> ErasedObserver for InternalObserver<T> {
@@ -94,6 +100,12 @@ impl<T: Value> ErasedObserver for InternalObserver<T> {
     }
     fn num_handlers(&self) -> i32 {
         self.on_update_handlers.borrow().len() as i32
+    }
+    #[cfg(cormacrelf_incremental_rs_verif)]
+    fn verif_num_handlers(&self) -> i32 {
+        self.on_update_handlers
+            .try_borrow()
+            .map_or(-1, |h| h.len() as i32)
     }
     fn add_to_observed_node(&self) {
         let node = &self.observing.node;
